@@ -271,3 +271,10 @@ Proof.
     vm_compute. reflexivity.
 Qed.
 Print Assumptions C19_main_theorem_applies.
+
+(* ---- the legacy MergePatch / MergeMergePatches write valid UTF-8 given UTF-8 input (Utf8Out.v) ---- *)
+From JP Require Utf8Out.
+Theorem C19_merge_output_utf8 : forall mm doc patch out,
+  Utf8Out.utf8_text doc -> Utf8Out.utf8_text patch -> api_merge4 mm doc patch = MOut out -> Utf8Out.utf8_text out.
+Proof. exact Utf8Out.api_merge4_utf8. Qed.
+Print Assumptions C19_merge_output_utf8.
